@@ -502,9 +502,6 @@ func engineScenarios(tier string) []*vkit.Scenario {
 	thorough := tier == "thorough"
 	var out []*vkit.Scenario
 	add := func(c ecfg) {
-		if thorough {
-			c.p++
-		}
 		out = append(out, &vkit.Scenario{
 			Name: c.name(), Body: engineBody(c), Check: engineCheck, P: c.p, D: 0,
 			Opts:     vsched.Options{Horizon: 60000},
@@ -517,24 +514,62 @@ func engineScenarios(tier string) []*vkit.Scenario {
 			},
 		})
 	}
-	for _, m := range []ekit.Mode{ekit.LT, ekit.ET} {
+	type shape struct {
+		ws   bool
+		n    int
+		end  string
+		sync string
+	}
+	// the quick tier's selection out of the product below
+	quick := map[shape]bool{
+		{false, 1, "close", "none"}: true, {false, 1, "close", "handler-waits"}: true, {false, 2, "close", "after-start"}: true,
+		{false, 2, "close", "none"}:      true,
+		{false, 1, "rst", "after-start"}: true, {false, 2, "rst", "handler-waits"}: true,
+		{false, 1, "uclose", "after-start"}: true, {false, 2, "uclose", "handler-waits"}: true,
+		{false, 1, "reqclose", "none"}:      true,
+		{true, 1, "close", "handler-waits"}: true, {true, 1, "close", "none"}: true, {true, 2, "rst", "after-start"}: true,
+		{true, 1, "uclose", "after-start"}: true, {true, 2, "hclose", "none"}: true,
+	}
+	modes := []ekit.Mode{ekit.LT, ekit.ET}
+	if thorough {
+		modes = ekit.Modes // one-shot mode rides along in the thorough tier
+	}
+	for _, m := range modes {
 		for _, e := range []string{"go", "pool"} {
-			p := 2
-			if e == "pool" {
-				p = 1
+			for _, ws := range []bool{false, true} {
+				for _, n := range []int{1, 2} {
+					for _, end := range []string{"close", "rst", "uclose", "reqclose", "hclose"} {
+						for _, sync := range []string{"none", "after-start", "handler-waits"} {
+							switch {
+							case (end == "reqclose" || end == "hclose") && sync != "none": // nobody to wait for
+								continue
+							case end == "reqclose" && ws, end == "hclose" && !ws:
+								continue
+							case end == "uclose" && sync == "none" && !ws:
+								// an unsynchronised Close of a fresh HTTP connection mostly precedes the request
+								continue
+							}
+							sh := shape{ws, n, end, sync}
+							if !thorough && !quick[sh] {
+								continue
+							}
+							// executions with the default task pool are 4-5 times slower (it allocates a
+							// 64 Ki-entry channel per engine) and have two more threads: one bound lower
+							p := 2
+							if e == "pool" {
+								p = 1
+								if sh == (shape{false, 1, "close", "handler-waits"}) {
+									p = 2
+								}
+							}
+							if thorough {
+								p++
+							}
+							add(ecfg{mode: m, exec: e, ws: ws, n: n, end: end, sync: sync, p: p})
+						}
+					}
+				}
 			}
-			add(ecfg{mode: m, exec: e, n: 1, end: "close", sync: "none", p: p})
-			add(ecfg{mode: m, exec: e, n: 1, end: "close", sync: "handler-waits", p: p})
-			add(ecfg{mode: m, exec: e, n: 2, end: "close", sync: "after-start", p: p})
-			add(ecfg{mode: m, exec: e, n: 1, end: "rst", sync: "after-start", p: p})
-			add(ecfg{mode: m, exec: e, n: 2, end: "rst", sync: "handler-waits", p: p})
-			add(ecfg{mode: m, exec: e, n: 1, end: "uclose", sync: "after-start", p: p})
-			add(ecfg{mode: m, exec: e, n: 2, end: "uclose", sync: "handler-waits", p: p})
-			add(ecfg{mode: m, exec: e, n: 1, end: "reqclose", sync: "none", p: p})
-			add(ecfg{mode: m, exec: e, ws: true, n: 1, end: "close", sync: "handler-waits", p: p})
-			add(ecfg{mode: m, exec: e, ws: true, n: 2, end: "rst", sync: "after-start", p: p})
-			add(ecfg{mode: m, exec: e, ws: true, n: 1, end: "uclose", sync: "after-start", p: p})
-			add(ecfg{mode: m, exec: e, ws: true, n: 2, end: "hclose", sync: "none", p: p})
 		}
 	}
 	return out
